@@ -247,6 +247,9 @@ def pc_fragile(case, Ks, obs, info):
         return True
     if info.get("min_gap", 1.0) < 1e-7:
         return True
+    r0 = obs["r"]
+    if any(G.rounding_dependent_tie(K, obs["L"][b], obs["perm"][b].tolist(), r0) for b, K in enumerate(Ks)):
+        return True
     tol = case["etol"] if case["etol"] is not None else case["st_tol"]
     r = obs["r"]
     for m in range(1, r + 1):
@@ -799,6 +802,28 @@ def replay(rp):
     if not case:
         print("replay file names a broken obligation / shard, not an input:", json.dumps(rp)[:600])
         return 1
+    if case["kind"] in ("perm", "inv"):
+        pm = P.materialise_perm(case)
+        obs = P.run_perm(case, pm)
+        fails = P.perm_direct(case, pm, obs)
+        print("case:", {k: case[k] for k in case if k in ("kind", "nr", "nc", "n", "batch", "left", "right", "src", "pbatch", "vseed")})
+        print("observed:", {k: v for k, v in obs.items() if k in ("raised", "msg", "res", "shape")})
+        for f in fails:
+            print("property failure:", f[1])
+        if not fails:
+            print("property holds on this case")
+        return 1 if fails else 0
+    if case["kind"] == "bw":
+        Ks, W = P.materialise_bw(case)
+        obs = P.run_bw(case, Ks, W)
+        fails = P.bw_direct(case, Ks, W, obs)
+        print("case:", {k: case[k] for k in case if k not in ("K", "W")})
+        print("observed:", {"raised": obs["raised"], "msg": obs.get("msg"), "perm": obs.get("perm")})
+        for f in fails:
+            print("property failure:", f[1])
+        if not fails:
+            print("property holds on this case")
+        return 1 if fails else 0
     Ks = [torch.tensor(K, dtype=G.DT) for K in case["K"]]
     if case["kind"] == "pc":
         _, metas = materialise_pc(case)
